@@ -1211,11 +1211,12 @@ pub fn run_enum(args: &Args, rep: &mut Report) {
     for (k, mut rng) in case_iter(args, 0xE9C3, 6) {
         // small scenarios: 2..3 threads, one or two operations each
         let nthreads = if rng.chance(args.u64("p3", 1), 8) { 3 } else { 2 };
-        let scenario = *rng.pick(&["identical-puts", "identical-puts", "nested-puts", "put-vs-get", "evict-race"]);
+        let scenario = *rng.pick(&["identical-puts", "identical-puts", "nested-puts", "put-vs-get", "evict-race", "evict-two-race", "evict-two-race"]);
         let nchunks = rng.urange(3, 6);
         let t = TruthKey::gen(&mut rng, nchunks, 40);
         let t2 = TruthKey::gen(&mut rng, 3, 40);
-        let keys = Arc::new(vec![t.clone(), t2.clone()]);
+        let t3 = TruthKey::gen(&mut rng, 4, 60);
+        let keys = Arc::new(vec![t.clone(), t2.clone(), t3.clone()]);
         let a = rng.usize_below(t.n() - 1);
         let b = rng.urange(a + 1, t.n());
         let plans: Vec<Vec<COp>> = (0..nthreads)
@@ -1235,6 +1236,15 @@ pub fn run_enum(args: &Args, rep: &mut Report) {
                         vec![COp::Put(0, a, b), COp::Get(0, a, b)]
                     }
                 },
+                "evict-two-race" => {
+                    // thread 0 inserts an item that needs both pre-filled items (key 0 and key 1) evicted;
+                    // thread 1 writes into key 0's directory at the same time
+                    if ti == 0 {
+                        vec![COp::Put(2, 0, t3.n())]
+                    } else {
+                        vec![COp::Put(0, 1, 2)]
+                    }
+                },
                 _ => {
                     if ti == 0 {
                         vec![COp::Put(0, a, b)]
@@ -1246,6 +1256,7 @@ pub fn run_enum(args: &Args, rep: &mut Report) {
             .collect();
         let cap = match scenario {
             "evict-race" => t.item_len(a, b).max(t2.item_len(0, t2.n())) + 8,
+            "evict-two-race" => t3.item_len(0, t3.n()).max(t.item_len(0, 1) + t2.item_len(0, 1)) + t.item_len(1, 2).min(8),
             _ => 100_000,
         };
         let mut script: Option<Vec<usize>> = Some(Vec::new());
@@ -1265,6 +1276,12 @@ pub fn run_enum(args: &Args, rep: &mut Report) {
             if scenario == "evict-race" {
                 let (o, d) = t2.slice(0, 1);
                 let _ = cache.put(&t2.key, &ChunkRange { start: 0, end: 1 }, &o, d);
+            }
+            if scenario == "evict-two-race" {
+                for tk in [&t, &t2] {
+                    let (o, d) = tk.slice(0, 1);
+                    let _ = cache.put(&tk.key, &ChunkRange { start: 0, end: 1 }, &o, d);
+                }
             }
             let steer = Steer::with_script(1, nthreads, sc.clone());
             {
